@@ -166,7 +166,10 @@ int process_tarball(sqfs_dir_iterator_t *it, sqfs_writer_t *sqfs)
 		if (ret > 0)
 			break;
 		if (ret < 0) {
-			sqfs_perror(NULL, "reading tar archive entry", ret);
+			/* the tar reader has its own status values and
+			   usually printed details already */
+			fputs("Error reading the next tar archive entry.\n",
+			      stderr);
 			return -1;
 		}
 
